@@ -285,7 +285,8 @@ fn tlv_items(mut it: v2::TypeLengthValues<'_>, nbytes: usize) -> String {
     // after the end, `next` must keep returning None
     let fused = ended && it.next().is_none() && it.next().is_none();
     // the section view is the whole section wherever the cursor is
-    let sbytes = it.as_bytes().len() == nbytes && it.len() == (nbytes as u16) && it.is_empty() == (nbytes == 0);
+    // (`len()` is a u16: what it reports for a raw slice above 65 535 bytes is not pinned by any property)
+    let sbytes = it.as_bytes().len() == nbytes && (nbytes > 65535 || it.len() as usize == nbytes) && it.is_empty() == (nbytes == 0);
     format!(
         "[{}] steps={} ended={} fused={} towned={} sbytes={}",
         parts.join(","),
